@@ -55,32 +55,44 @@ CLAIMS["C01"] = {
     "note": BASE_NOTE,
 }
 CLAIMS["C02"] = {
-    "text": "Proved in Lean (C05 completeness theorems): on any well-formed trie the generated membership proof verifies and carries the "
-            "leaf's digest, and the generated non-membership proof verifies for every absent label. That the directory's lookup "
-            "assembles these into a proof verifying to (latest epoch, version count, latest value) is decided by the correspondence "
-            "run: every real LookupProof is compared field by field with the model's and the real lookup_verify result with the "
-            "specification, for every label after every publish.",
-    "note": BASE_NOTE + "The composition theorem lookup_complete over whole histories is not yet an obligation.",
+    "text": "Proved in Lean (lookup_complete): in EVERY directory state reached by publishes (Refines c d sp, established for all "
+            "histories by C01's refinement theorem) and for every published label, the model of Directory::lookup succeeds with "
+            "(latest epoch, specification root hash) and the model of lookup_verify accepts the returned proof with (epoch of the "
+            "label's latest update, version count, latest value); unpublished labels get NotFound (lookup_unpublished). Underneath: "
+            "the storage walk of get_membership_proof / get_non_membership_proof returns exactly the canonical trie's proofs "
+            "(membershipProof_refines, nonMembershipProof_refines — false for a query that properly extends a leaf label, see the "
+            "kernel-checked counterexample; unreachable with 256-bit labels, noProperPrefix_of_256). The correspondence run compares "
+            "every real LookupProof field by field with the model's and the real lookup_verify result with the specification.",
+    "note": BASE_NOTE,
 }
 CLAIMS["C03"] = {
-    "text": "Proved in Lean: the leaf-level completeness theorems (C05) and the marker facts the history protocol relies on "
-            "(get_marker_versions never panics for 1<=s<=n<=E, past markers < start, future markers in (end,E]). The end-to-end "
-            "statement is decided by the correspondence run: every real HistoryProof (Complete and MostRecent n) is compared with the "
-            "model's and the real key_history_verify result list with the specification's version list.",
-    "note": BASE_NOTE + "The composition theorem history_complete over whole histories is not yet an obligation.",
+    "text": "Proved in Lean (history_complete): in every directory state reached by publishes, for every published label and every "
+            "parameter (Complete, MostRecent n >= 1, also n beyond the version count), the model of key_history succeeds and both "
+            "verifiers (strict and tombstone-tolerant) accept the proof with exactly the specification's version list — newest "
+            "first, all or the newest min(n,total), each with its value and epoch. Uses the marker facts of C08 (no panic, past "
+            "markers present, future markers absent). The correspondence run compares every real HistoryProof with the model's "
+            "and the real key_history_verify result list with the specification.",
+    "note": BASE_NOTE,
 }
 CLAIMS["C04"] = {
-    "text": "Proved in Lean: uniqueness of the canonical trie (the fact that lets a rebuilt tree be identified by its leaf set). The "
-            "statement itself — every range (s,e) audits against the published root hashes, invalid ranges are refused — is decided by "
-            "the correspondence run over ALL pairs (s,e) of each history, with the real audit_verify as oracle and the model of "
-            "proof generation + auditor compared line by line.",
-    "note": BASE_NOTE + "The theorem audit_complete (frontier_rebuild) is not yet an obligation.",
+    "text": "Proved in Lean (audit_complete): for the storage of ANY tree reached by batch insertions and any 0 <= s < e <= latest "
+            "epoch, the proof generated from the LATEST tree (appendOnlyProof_eq characterises it: per epoch the maximal unchanged "
+            "sub-tries and the inserted leaves) is accepted by the auditor against the root hashes the tree had at epochs s..e — "
+            "however many epochs follow e; invalid ranges are refused (audit_refused). Hypothesis: some leaf has epoch >= e, true of "
+            "every directory state because publish never advances the epoch with an empty batch (audit_complete_dense); without it "
+            "the statement is false for the raw Azks API (audit_counterexample, kernel-checked: empty batches advance the epoch and "
+            "the generated proof is empty). The correspondence run audits ALL pairs (s,e) of each history with the real "
+            "audit_verify as oracle and compares generation + auditor line by line with the model.",
+    "note": BASE_NOTE + "audit_complete is stated over the node store and canonical tree; its link to whole directory histories is C01's refinement theorem plus the per-epoch density of publishes.",
 }
 CLAIMS["C20"] = {
-    "text": "Tombstoning is modelled (Dir.tombstone) and specified (Spec.historyTomb); proved in Lean is the fact that makes a "
-            "tombstoned entry detectable by the strict verifier (membership_sound_leaf: a leaf digest is only provable with its true "
-            "commitment). The property is decided by the correspondence run with oracles spec.root / spec.lookup / "
-            "spec.history.tomb after every tombstone step and after further publishes.",
+    "text": "Proved in Lean over the directory model (Dir.tombstone): tombstoning leaves the node store and epoch record untouched "
+            "(tombstone_keeps_tree), hence the epoch hash and every audit proof (tombstone_epochHash, tombstone_audit); lookups of "
+            "other labels, and of the tombstoned label when the cut is below its latest update, return the identical answer "
+            "(tombstone_other_lookup, tombstone_own_lookup); a later publish produces the same tree, epoch and root hash as it "
+            "would have without the tombstone, with value states equal up to the tombstoned values (tombstone_then_publish). What a "
+            "history request shows for tombstoned entries is decided by the correspondence run with oracles spec.root / spec.lookup "
+            "/ spec.history.tomb after every tombstone step and after further publishes.",
     "note": BASE_NOTE,
 }
 CLAIMS["C16"] = {
